@@ -789,6 +789,10 @@ class Folder:
     # ------------------------------------------------------------------ calls
     def _call(self, st, t):
         name = t.get("callee") or t.get("declared")
+        if name is None and t.get("indirect"):
+            fv = self._operand(st, t["indirect"])
+            if fv != TOP and fv[0] == "fn":
+                name = fv[1]  # call through a function pointer whose value folded to a crate function
         args = [self._operand(st, a) for a in t["args"]]
         dargs = [self._load_ptr(st, a[1]) if (a != TOP and a[0] == "ref") else a for a in args]
         entry = {"callee": name, "args": args, "dargs": dargs, "line": t.get("line"), "file": t.get("file"),
